@@ -33,10 +33,11 @@ TIERS = {
 }
 STEP_CAP = 500000
 SHRINK_BUDGET = 250
-FAULT_OPS = ("restart", "redeliver", "alloc", "gc", "prune")
+FAULT_OPS = ("restart", "redeliver", "alloc", "gc", "prune", "side_job")
 PROBES = ["redelivery_hit_template", "restart_between_batches", "near_miss_same_pregroup",
           "class_of_size_ge3_split_across_batches", "single_batch_no_template_path", "relabelled_duplicate",
-          "one_shot_compared", "lib_check_new_class", "lib_check_existing_class", "library_ids_not_contiguous"]
+          "one_shot_compared", "lib_check_new_class", "lib_check_existing_class", "library_ids_not_contiguous",
+          "two_service_objects_share_library", "service_object_did_side_job", "item_derived_from_delivered_object"]
 REAL = ["synkit.Graph.Matcher.batch_cluster.BatchCluster.fit / cluster / lib_check / batch_dicts",
         "synkit.Graph.Matcher.graph_cluster.GraphCluster.fit / iterative_cluster",
         "synkit.Graph.Matcher.graph_morphism.graph_isomorphism (networkx is_isomorphic with generic matchers)",
@@ -75,7 +76,12 @@ def gen_items(rng, pool: List[int], n: int, near_p: float) -> List[Dict[str, Any
             ed = ["charge", rng.randrange(8)]
         elif r < near_p * 1.7:
             ed = ["element", rng.randrange(8)]
-        out.append(rcdata.spec(b, rng.randrange(1 << 30) if rng.random() < 0.7 else None, ed))
+        sp = rcdata.spec(b, rng.randrange(1 << 30) if rng.random() < 0.7 else None, ed)
+        if ed is not None and rng.random() < 0.5:
+            # the caller derives the near-miss from an object it delivered earlier: copy, then edit the copy
+            sp["relabel"] = None
+            sp["derive"] = rng.choice(["copy", "deepcopy", "pickle"])
+        out.append(sp)
     return out
 
 
@@ -103,19 +109,22 @@ def generate(seed: int, tier: str = "quick") -> Dict[str, Any]:
         if faulty and rng.random() < 0.1:
             ops.append({"op": "gc", "s": s()})
         if faulty and rng.random() < 0.08:
+            # the same long-lived service object does an unrelated job with its own (empty) library in between
+            ops.append({"op": "side_job", "s": s(), "inst": rng.choice([0, 1]), "items": gen_items(rng, pool, rng.randint(1, 4), near_p)})
+        if faulty and rng.random() < 0.08:
             ops.append({"op": "prune", "s": s(), "drop": [rng.randrange(8) for _ in range(rng.randint(1, 2))]})
         if faulty and c < 0.12:
-            ops.append({"op": "restart", "s": s()})
+            ops.append({"op": "restart", "s": s(), "inst": rng.choice([0, 1, None])})
         elif faulty and c < 0.27:
-            ops.append({"op": "redeliver", "s": s(), "batch": rng.randrange(8), "batch_size": rng.choice([None, 1, 2, 3])})
+            ops.append({"op": "redeliver", "s": s(), "batch": rng.randrange(8), "batch_size": rng.choice([None, 1, 2, 3]), "inst": rng.choice([0, 1])})
         elif c < 0.6:
             n = rng.randint(1, 10)
-            ops.append({"op": "deliver", "s": s(), "items": gen_items(rng, pool, n, near_p),
+            ops.append({"op": "deliver", "s": s(), "items": gen_items(rng, pool, n, near_p), "inst": rng.choice([0, 0, 1]),
                         "batch_size": rng.choice([None, None, 1, 2, 3, 5, n, n + 2])})
         elif c < 0.7:
-            ops.append({"op": "cluster", "s": s(), "items": gen_items(rng, pool, rng.randint(1, 6), near_p)})
+            ops.append({"op": "cluster", "s": s(), "items": gen_items(rng, pool, rng.randint(1, 6), near_p), "inst": rng.choice([0, 0, 1])})
         elif c < 0.85:
-            ops.append({"op": "classify_one", "s": s(), "item": gen_items(rng, pool, 1, near_p)[0]})
+            ops.append({"op": "classify_one", "s": s(), "item": gen_items(rng, pool, 1, near_p)[0], "inst": rng.choice([0, 0, 1])})
         else:
             ops.append({"op": "one_shot", "s": s(), "perm_seed": rng.randrange(1 << 30)})
     return {"cfg": cfg, "ops": ops}
@@ -139,14 +148,37 @@ def execute(case: Dict[str, Any], sim: Sim) -> None:
 
 def _run(case: Dict[str, Any], sim: Sim, world: World) -> None:
     akey = "inv" if case["cfg"].get("attr") else None
-    bc = BatchCluster()
+    bcs: List[BatchCluster] = [BatchCluster(), BatchCluster()]   # two long-lived service objects share one durable library
+    used_inst: set = set()
+    held: Dict[str, nx.Graph] = {}   # content key -> a delivered, un-relabelled, un-edited graph object (caller keeps a few)
     templates: List[Dict[str, Any]] = []
     seen: List[Dict[str, Any]] = []          # every delivered item: {"spec", "cls"}
     batches: List[List[int]] = []            # indices into seen, per delivery
     restarted_since_delivery = False
 
+    def service(op: Dict[str, Any]) -> BatchCluster:
+        i = int(op.get("inst") or 0) % 2
+        if used_inst and i not in used_inst:
+            sim.probe("two_service_objects_share_library")
+        used_inst.add(i)
+        return bcs[i]
+
     def mk(sp: Dict[str, Any], uid: int) -> Dict[str, Any]:
-        g = rcdata.build(sp)
+        src_key = str(sp["base"] % len(rcdata.items()))
+        if sp.get("derive") and sp.get("edit") and src_key in held:
+            src = held[src_key]
+            if sp["derive"] == "copy":
+                g = src.copy()
+            elif sp["derive"] == "deepcopy":
+                g = copy.deepcopy(src)
+            else:
+                g = pickle.loads(pickle.dumps(src))
+            rcdata.apply_edit_inplace(g, sp["edit"])
+            sim.probe("item_derived_from_delivered_object")
+        else:
+            g = rcdata.build({"base": sp["base"], "relabel": sp.get("relabel"), "edit": sp.get("edit")})
+            if sp.get("relabel") is None and not sp.get("edit") and len(held) < 8:
+                held.setdefault(src_key, g)
         d: Dict[str, Any] = {"gml": g, "uid": uid}
         if akey:
             d[akey] = rcdata.invariant_attr(g)
@@ -220,8 +252,24 @@ def _run(case: Dict[str, Any], sim: Sim, world: World) -> None:
                         sim.probe("library_ids_not_contiguous")
             sim.event("prune", len(templates))
             continue
+        if k == "side_job":
+            specs = op["items"]
+            if specs:
+                jb = service(op)
+                data = [mk(sp, -1 - n_) for n_, sp in enumerate(specs)]
+                out, side_t = jb.cluster(data, [], rule_key="gml", attribute_key=akey)
+                got = [d.get("class") for d in out]
+                if not rcdata.same_partition(got, rcdata.truth_partition(specs)):
+                    raise Violation(PROP, "BatchCluster.cluster", "isomorphic_items_in_different_classes" , "side job with an empty library",
+                                    {"got": got, "truth": rcdata.truth_partition(specs), "items": specs})
+                sim.fault("side_job")
+                sim.probe("service_object_did_side_job")
+            sim.event("side_job", len(specs))
+            continue
         if k == "restart":
-            bc = BatchCluster()
+            which = op.get("inst")
+            for i in ((0, 1) if which is None else (int(which) % 2,)):
+                bcs[i] = BatchCluster()
             templates = pickle.loads(pickle.dumps(templates))
             restarted_since_delivery = True
             sim.fault("restart")
@@ -248,11 +296,11 @@ def _run(case: Dict[str, Any], sim: Sim, world: World) -> None:
                     sim.probe("single_batch_no_template_path")
                 cond = "batch_size=%s, %s" % ("None" if bs is None else ("<n" if bs < len(specs) else ">=n"),
                                               "templates carried" if had_templates else "no templates")
-                out, templates = bc.fit(data, templates, rule_key="gml", attribute_key=akey, batch_size=bs)
+                out, templates = service(op).fit(data, templates, rule_key="gml", attribute_key=akey, batch_size=bs)
             else:
                 site = "BatchCluster.cluster"
                 cond = "templates carried" if had_templates else "no templates"
-                out, templates = bc.cluster(data, templates, rule_key="gml", attribute_key=akey)
+                out, templates = service(op).cluster(data, templates, rule_key="gml", attribute_key=akey)
             absorb(site, cond, out, specs, uids)
             # probes
             keys = [rcdata.content_key(sp) for sp in specs]
@@ -298,7 +346,7 @@ def _run(case: Dict[str, Any], sim: Sim, world: World) -> None:
             if restarted_since_delivery:
                 sim.probe("restart_between_batches")
             restarted_since_delivery = False
-            out, templates = bc.fit(data, templates, rule_key="gml", attribute_key=akey, batch_size=op["batch_size"])
+            out, templates = service(op).fit(data, templates, rule_key="gml", attribute_key=akey, batch_size=op["batch_size"])
             if [d.get("uid") for d in out] != uids:
                 raise Violation(PROP, site, "items_lost_or_reordered", cond, {"want": uids, "got": [d.get("uid") for d in out]})
             after = [d.get("class") for d in out]
@@ -321,7 +369,7 @@ def _run(case: Dict[str, Any], sim: Sim, world: World) -> None:
                 sim.probe("restart_between_batches")
             restarted_since_delivery = False
             site = "BatchCluster.lib_check"
-            d, templates = bc.lib_check(mk(sp, uid), templates, rule_key="gml", attribute_key=akey)
+            d, templates = service(op).lib_check(mk(sp, uid), templates, rule_key="gml", attribute_key=akey)
             if "class" not in d:
                 raise Violation(PROP, site, "item_without_class", "", {"item": sp})
             seen[uid]["cls"] = d["class"]
